@@ -772,4 +772,9 @@ def replay(path):
     print("model:", m[-1])
     v = batch_oracle(ctx, lines, i)[-1]
     print("oracle:", v or "ok")
+    if not v and case.split(" ")[0] != "deq":
+        i2 = vlib.run_exe(vlib.harness_build("fb"), lines, ctx.work, "replay.fb.impl")
+        print("impl (hashable-value build):", i2[-1])
+        v = batch_oracle(ctx, lines, i2)[-1]
+        print("oracle (hashable-value build):", v or "ok")
     return 1 if v else 0
